@@ -25,6 +25,9 @@ func findBurnState(states *[]types.State) int {
 
 func findAccountState(states *[]types.State, account *types.Account) int {
 	for pos, state := range *states {
+		if state.Account == nil {
+			continue
+		}
 		if state.Account.Id == account.Id && state.Account.Id != "" && &state.Account.Id != nil {
 			return pos
 		} else if state.Account.Id == account.Id && state.Account.Id == "" {
@@ -182,10 +185,10 @@ func (k Keeper) sendCoinsToBaseAccount(ctx sdk.Context, state *types.State) {
 
 func (k Keeper) SendCoinsFromStates(ctx sdk.Context, states []types.State) {
 	for _, state := range states {
-		if types.InternalAccount != state.Account.Type && checkIfAnyCoinIsGTE1(state.Remains) {
+		if types.InternalAccount != state.Account.GetType() && checkIfAnyCoinIsGTE1(state.Remains) {
 			if state.Burn {
 				k.burnCoins(ctx, &state)
-			} else if types.ModuleAccount == state.Account.Type {
+			} else if types.ModuleAccount == state.Account.GetType() {
 				k.sendCoinsToModuleAccount(ctx, &state)
 			} else {
 				k.sendCoinsToBaseAccount(ctx, &state)
